@@ -1,7 +1,7 @@
 (* Proofs/PSafe.v — C01, arithmetic half: in every reachable state no checked operation of the Rust text fails.
-   [step_ok] (Safe.v) holds whenever the state is well-formed, the geometry is at most BND = 2^31 - 10000 and the
-   numeric arguments are absent or at most 9999 (resize: between 1 and BND); lifted over the recogniser and the
-   decoder to every byte / character / API history. *)
+   [step_ok] (Safe.v) holds whenever the state is well-formed, the number of lines is at most BND = 2^31 - 10000 (any number
+   of columns) and the numeric arguments are absent or at most 9999 (resize: lines between 1 and BND, columns >= 1); lifted
+   over the recogniser and the decoder to every byte / character / API history. *)
 From Coq Require Import NArith List Bool Lia ZifyBool.
 From MT Require Import Lib Types Charsets Tables Screen Parser Utf8 World Spec Obs Stmt Safe.
 From MT.Proofs Require Import WF Aeq Loops View RefineSimple RefineErase RefineShift RefineScroll P05 Congr CongrGrid CongrMore
@@ -10,8 +10,7 @@ Import ListNotations.
 Open Scope N_scope.
 
 Definition BND : N := 2147473648.          (* 2^31 - 10000 *)
-Definition Bn (s : screen) : Prop :=
-  columns s <= BND /\ lines s <= BND /\ match saved_columns s with Some w => w <= BND | None => True end.
+Definition Bn (s : screen) : Prop := lines s <= BND.
 (* same geometry *)
 Definition geq (s' s : screen) : Prop := columns s' = columns s /\ lines s' = lines s /\ saved_columns s' = saved_columns s.
 Definition small (n : option N) : Prop := match n with Some a => a <= 9999 | None => True end.
@@ -36,7 +35,7 @@ Proof. intros W. pose proof (wf_lines s W). unfold vb_ok. destruct (margins s); 
 
 Lemma cup_ok s l c : WF s -> Bn s -> small l -> small c -> cursor_position_ok s l c = true.
 Proof.
-  intros W [Bc [Bl _]] Hl Hc. pose proof (one_based_small l Hl). pose proof (one_based_small c Hc).
+  intros W Bl Hl Hc. unfold Bn in Bl. pose proof (one_based_small l Hl). pose proof (one_based_small c Hc).
   pose proof (wf_margins s W) as M. unfold margins_wf in M. pose proof (wf_lines s W).
   unfold cursor_position_ok. cbv zeta. rewrite (hb_ok_WF s W), (vb_ok_WF s false W).
   consts. destruct (margins s) as [[t b]|].
@@ -47,7 +46,7 @@ Proof.
 Qed.
 
 Ltac geo W B := pose proof (wf_cols _ W); pose proof (wf_lines _ W); pose proof (wf_x _ W); pose proof (wf_y _ W);
-  let M := fresh "M" in pose proof (wf_margins _ W) as M; unfold margins_wf in M; destruct B as [? [? ?]].
+  let M := fresh "M" in pose proof (wf_margins _ W) as M; unfold margins_wf in M; unfold Bn in B.
 
 Lemma WF_set_margins_some s t b : WF s -> t < b -> b <= lines s - 1 -> WF (set_margins_f s (Some (t, b))).
 Proof. intros [w1 w2 w3 w4 w5 w6 w7 w8] H1 H2. constructor; try assumption. unfold margins_wf. cbn. split; assumption. Qed.
@@ -71,7 +70,7 @@ Qed.
 Lemma cud_ok s n : WF s -> Bn s -> small n -> cursor_down_ok s n = true.
 Proof. intros W B Hn. geo W B. pose proof (nhat_small n Hn). unfold cursor_down_ok. consts. destruct (margins s); cbv iota; lia. Qed.
 Lemma cuf_ok s n : WF s -> Bn s -> small n -> cursor_forward_ok s n = true.
-Proof. intros W B Hn. geo W B. pose proof (nhat_small n Hn). unfold cursor_forward_ok, hb_ok. consts. lia. Qed.
+Proof. intros W B Hn. geo W B. unfold cursor_forward_ok, hb_ok. lia. Qed.
 Lemma cub_ok s n : WF s -> cursor_back_ok s n = true.
 Proof. intros W. pose proof (wf_cols _ W). unfold cursor_back_ok, hb_ok. destruct (N.eqb_spec (cx s) (columns s)); lia. Qed.
 Lemma vpa_ok s n : WF s -> Bn s -> small n -> cursor_to_line_ok s n = true.
@@ -90,7 +89,7 @@ Proof.
   destruct (margins_or_full_wf s t b W EM). consts. destruct (margins s); destruct (cy s =? t); cbv iota; lia.
 Qed.
 Lemma shift_chars_ok_WF s n : WF s -> Bn s -> small n -> shift_chars_ok s n = true.
-Proof. intros W B Hn. geo W B. pose proof (nhat_small n Hn). unfold shift_chars_ok. consts. lia. Qed.
+Proof. reflexivity. Qed.
 Lemma shift_lines_ok_gen s n : WF s -> Bn s -> nhat n <= lines s + 9999 -> shift_lines_ok s n = true.
 Proof.
   intros W B Hn. geo W B. unfold shift_lines_ok. destruct (margins_or_full s) as [t b] eqn:EM.
@@ -99,21 +98,21 @@ Qed.
 Lemma shift_lines_ok_WF s n : WF s -> Bn s -> small n -> shift_lines_ok s n = true.
 Proof. intros W B Hn. pose proof (nhat_small n Hn). apply shift_lines_ok_gen; try assumption. lia. Qed.
 Lemma el_ok s h : WF s -> Bn s -> erase_in_line_ok s h = true.
-Proof. intros W B. geo W B. unfold erase_in_line_ok. consts. destruct (_ =? 1); lia. Qed.
+Proof. reflexivity. Qed.
 Lemma ed_ok s h : WF s -> Bn s -> erase_in_display_ok s h = true.
 Proof.
-  intros W B. unfold erase_in_display_ok. cbv zeta. rewrite (el_ok s _ W B). geo W B. consts.
+  intros W B. unfold erase_in_display_ok, erase_in_line_ok. cbv zeta. geo W B. consts.
   destruct (_ =? 0); destruct (_ || _); lia.
 Qed.
 Lemma ech_ok s n : WF s -> Bn s -> small n -> erase_characters_ok s n = true.
-Proof. intros W B Hn. geo W B. pose proof (nhat_small n Hn). unfold erase_characters_ok. consts. lia. Qed.
+Proof. reflexivity. Qed.
 
 (* ---- frames: which functions leave the geometry alone ---- *)
 Lemma geq_refl s : geq s s. Proof. repeat split. Qed.
 Lemma geq_trans a b c : geq a b -> geq b c -> geq a c.
 Proof. intros [a1 [a2 a3]] [b1 [b2 b3]]. repeat split; congruence. Qed.
 Lemma Bn_geq s' s : geq s' s -> Bn s -> Bn s'.
-Proof. intros [e1 [e2 e3]] [b1 [b2 b3]]. unfold Bn. rewrite e1, e2, e3. repeat split; assumption. Qed.
+Proof. intros [e1 [e2 e3]] b. unfold Bn in *. rewrite e2. exact b. Qed.
 Lemma geq_set_cur s cu : geq (set_cur s cu) s. Proof. repeat split. Qed.
 Lemma geq_cup s l c : geq (cursor_position s l c) s.
 Proof. destruct (cup_frame s l c) as [cu E]. rewrite E. apply geq_set_cur. Qed.
@@ -230,8 +229,9 @@ Proof.
     destruct (geq_vb (ensure_hbounds (set_margins_f s5 None)) false) as [g1 [g2 g3]]. rewrite g1, g2, g3. cbn. repeat split; assumption.
 Qed.
 
-Definition dim_ok (v : option N) : Prop := match v with Some a => 1 <= a <= BND | None => True end.
-Lemma resize_ok_WF s l c : WF s -> Bn s -> dim_ok l -> dim_ok c -> resize_ok s l c = true.
+Definition dim_ok (v : option N) : Prop := match v with Some a => 1 <= a <= BND | None => True end.      (* lines *)
+Definition dim_c (v : option N) : Prop := match v with Some a => 1 <= a | None => True end.             (* columns *)
+Lemma resize_ok_WF s l c : WF s -> Bn s -> dim_ok l -> dim_c c -> resize_ok s l c = true.
 Proof.
   intros W B Hl Hc. pose proof B as B0. geo W B. unfold resize_ok.
   set (L := match l with Some v => v | None => lines s end). set (C := match c with Some v => v | None => columns s end).
@@ -274,13 +274,13 @@ Proof.
   destruct (nmem DECCOLM ml).
   - set (s0 := set_saved_columns s1 (Some (columns s1))).
     assert (W0 : WF s0) by (apply (WF_frame s1); [exact W1|reflexivity..]).
-    assert (B0 : Bn s0) by (destruct B1 as [b1 [b2 b3]]; repeat split; assumption).
-    rewrite (resize_ok_WF s0 None (Some 132) W0 B0 I) by (cbn; unfold BND; lia). cbn [andb].
+    assert (B0 : Bn s0) by exact B1.
+    rewrite (resize_ok_WF s0 None (Some 132) W0 B0 I) by (cbn; lia). cbn [andb].
     assert (H132 : 1 <= 132) by lia.
     destruct (resize_spec s0 None (Some 132) W0 I H132) as [_ Wr].
     destruct (resize_geo s0 None (Some 132)) as [r1 [r2 r3]].
     set (sr := resize s0 None (Some 132)) in *.
-    assert (Br : Bn sr) by (unfold Bn; rewrite r1, r2, r3; destruct B0 as [? [? ?]]; repeat split; try assumption; unfold BND; lia).
+    assert (Br : Bn sr) by (unfold Bn; rewrite r2; exact B0).
     clearbody sr. apply colm_tail_ok; assumption.
   - cbn [andb]. destruct (nmem DECOM ml); [|reflexivity]. apply cup_ok; try exact I; assumption.
 Qed.
@@ -297,12 +297,11 @@ Proof.
     assert (R : (if columns s1 =? 132 then match saved_columns s1 with Some w => resize_ok s1 None (Some w) | None => true end else true) = true /\ WF sr /\ Bn sr).
     { unfold sr. destruct (columns s1 =? 132); [|split; [reflexivity|split; assumption]].
       unfold SCm in SC1. destruct (saved_columns s1) as [w|] eqn:Es; [|split; [reflexivity|split; assumption]].
-      assert (Hw : w <= BND) by (destruct B1 as [_ [_ b3]]; rewrite Es in b3; exact b3).
-      split; [apply resize_ok_WF; try assumption; [exact I|cbn; lia]|].
+      split; [apply resize_ok_WF; try assumption; try exact I; exact SC1|].
       destruct (resize_spec s1 None (Some w) W1 I SC1) as [_ Wr].
       destruct (resize_geo s1 None (Some w)) as [r1 [r2 r3]].
       split; [apply (WF_frame (resize s1 None (Some w))); [exact Wr|reflexivity..]|].
-      unfold Bn. cbn [columns lines saved_columns set_saved_columns]. rewrite r1, r2. destruct B1 as [? [? ?]]. repeat split; assumption. }
+      unfold Bn. cbn [lines set_saved_columns]. rewrite r2. exact B1. }
     destruct R as [R1 [Wr Br]]. rewrite R1. cbn [andb]. clearbody sr. apply colm_tail_ok; assumption.
   - cbn [andb]. destruct (nmem DECOM ml); [|reflexivity]. apply cup_ok; try exact I; assumption.
 Qed.
@@ -347,16 +346,15 @@ Proof.
   pose proof (Bn_geq _ _ (geq_pre_wrap s (wid ch)) B) as B1.
   set (s1 := m_pre_wrap s (wid ch)) in *. clearbody s1.
   assert (O2 : (if has_mode s1 IRM && (0 <? wid ch) then shift_chars_ok s1 (Some (wid ch)) else true) = true).
-  { destruct (_ && _); [|reflexivity]. apply shift_chars_ok_WF; try assumption. cbn. lia. }
+  { destruct (_ && _); reflexivity. }
   rewrite O2. cbn [andb].
   set (s2 := if has_mode s1 IRM && (0 <? wid ch) then insert_characters s1 (Some (wid ch)) else s1).
   assert (W2 : WF s2) by (unfold s2; destruct (_ && _); [apply WF_ich_gen|]; exact W1).
   assert (B2 : Bn s2) by (unfold s2; destruct (_ && _); [apply (Bn_geq _ s1); [apply geq_ich|exact B1]|exact B1]).
-  clearbody s2. geo W2 B2. consts.
-  destruct (wid ch =? 1); [cbn [andb]; destruct (0 <? wid ch); lia|].
-  destruct (wid ch =? 2); [destruct (0 <? wid ch); lia|].
-  destruct ((wid ch =? 0) && is_comb ch); [|destruct (0 <? wid ch); lia].
-  destruct (0 <? cx s2); [destruct (0 <? wid ch); lia|]. destruct (0 <? cy s2); destruct (0 <? wid ch); lia.
+  clearbody s2. geo W2 B2.
+  destruct (wid ch =? 1); [reflexivity|]. destruct (wid ch =? 2); [reflexivity|].
+  destruct ((wid ch =? 0) && is_comb ch); [|reflexivity].
+  destruct (0 <? cx s2); [reflexivity|]. destruct (0 <? cy s2); [lia|reflexivity].
 Qed.
 Lemma draw_chars_ok_WF cs : forall s, WF s -> Bn s -> draw_chars_ok wid is_comb nfc s cs = true.
 Proof.
@@ -370,41 +368,23 @@ Definition op_small (o : op) : Prop :=
   | OIch n | OCuu n | OCud n | OCuf n | OCub n | OCnl n | OCpl n | OCha n | OIl n | ODl n | ODch n | OEch n | OVpa n => small n
   | OCup l c => small l /\ small c
   | OMargins t b => small t /\ small b
-  | OResize l c => dim_ok l /\ dim_ok c
+  | OResize l c => dim_ok l /\ dim_c c
   | _ => True
   end.
 Lemma op_small_args_ok o : op_small o -> args_ok o.
-Proof. destruct o; try (intros _; exact I). intros [Hl Hc]. split; [destruct l|destruct c]; cbn in *; try exact I; lia. Qed.
+Proof. destruct o; try (intros _; exact I). intros [Hl Hc]. split; [destruct l|destruct c]; cbn in *; try exact I; try exact Hc; lia. Qed.
 
 Theorem step_safe s o : WF s -> SCm s -> Bn s -> op_small o -> step_ok s o = true.
 Proof.
-  intros W SC B Ho. destruct o; cbn [step_ok Safe.step_ok]; cbn [op_small] in Ho; try reflexivity.
-  - apply reset_ok_geo; [apply (wf_cols s W)|apply (wf_lines s W)].
-  - apply index_ok_WF; assumption.
-  - apply index_ok_WF; assumption.
-  - apply rindex_ok; assumption.
-  - apply restore_ok; assumption.
-  - apply cub_ok; assumption.
-  - unfold tab_ok. pose proof (wf_cols s W). lia.
-  - apply draw_chars_ok_WF; assumption.
-  - apply shift_chars_ok_WF; assumption.
-  - apply cud_ok; assumption.
-  - apply cuf_ok; assumption.
-  - apply cub_ok; assumption.
-  - apply cud_ok; assumption.
-  - apply hb_ok_WF; assumption.
-  - destruct Ho. apply cup_ok; assumption.
-  - apply ed_ok; assumption.
-  - apply el_ok; assumption.
-  - apply shift_lines_ok_WF; assumption.
-  - apply shift_lines_ok_WF; assumption.
-  - apply shift_chars_ok_WF; assumption.
-  - apply ech_ok; assumption.
-  - apply vpa_ok; assumption.
-  - apply set_mode_ok_WF; assumption.
-  - apply reset_mode_ok_WF; assumption.
-  - destruct Ho. apply stbm_ok; assumption.
-  - destruct Ho. apply resize_ok_WF; assumption.
+  intros W SC B Ho. destruct o; cbn [step_ok Safe.step_ok]; cbn [op_small] in Ho; try reflexivity;
+    match type of Ho with _ /\ _ => destruct Ho as [Ho1 Ho2] | _ => idtac end;
+    first [ apply reset_ok_geo; [apply (wf_cols s W)|apply (wf_lines s W)]
+          | apply index_ok_WF; assumption | apply rindex_ok; assumption | apply restore_ok; assumption
+          | apply cub_ok; assumption | apply draw_chars_ok_WF; assumption | apply cud_ok; assumption
+          | apply cuf_ok; assumption | apply hb_ok_WF; assumption | apply cup_ok; assumption
+          | apply ed_ok; assumption | apply shift_lines_ok_WF; assumption | apply vpa_ok; assumption
+          | apply set_mode_ok_WF; assumption | apply reset_mode_ok_WF; assumption | apply stbm_ok; assumption
+          | apply resize_ok_WF; assumption | (unfold tab_ok; pose proof (wf_cols s W); lia) ].
 Qed.
 
 (* ---- the geometry bound is kept by every operation ---- *)
@@ -422,7 +402,7 @@ Proof.
   destruct (nmem DECCOLM (enc_modes ms p)); [|exact B1].
   apply (Bn_geq _ _ (geq_cup _ _ _)). apply (Bn_geq _ _ (geq_ed _ _)).
   destruct (resize_geo (set_saved_columns s1 (Some (columns s1))) None (Some 132)) as [r1 [r2 r3]].
-  unfold Bn. rewrite r1, r2, r3. destruct B1 as [? [? ?]]. cbn. repeat split; try assumption. unfold BND. lia.
+  unfold Bn. rewrite r2. exact B1.
 Qed.
 Lemma Bn_reset_mode s ms p : WF s -> Bn s -> Bn (reset_mode s ms p).
 Proof.
@@ -431,8 +411,8 @@ Proof.
   destruct (nmem DECCOLM (enc_modes ms p)); [|exact B1].
   apply (Bn_geq _ _ (geq_cup _ _ _)). apply (Bn_geq _ _ (geq_ed _ _)).
   destruct (columns s1 =? 132); [|exact B1]. destruct (saved_columns s1) as [w|] eqn:Es; [|exact B1].
-  destruct (resize_geo s1 None (Some w)) as [r1 [r2 r3]]. destruct B1 as [b1 [b2 b3]]. rewrite Es in b3.
-  unfold Bn. cbn [columns lines saved_columns set_saved_columns]. rewrite r1, r2. repeat split; assumption.
+  destruct (resize_geo s1 None (Some w)) as [r1 [r2 r3]].
+  unfold Bn. cbn [lines set_saved_columns]. rewrite r2. exact B1.
 Qed.
 Lemma reset_geo s : 1 <= columns s -> 1 <= lines s -> columns (reset s) = columns s /\ lines (reset s) = lines s /\ saved_columns (reset s) = None.
 Proof. intros Hc Hl. rewrite reset_closed by assumption. repeat split. Qed.
@@ -456,11 +436,10 @@ Theorem Bn_step s o : WF s -> Bn s -> op_small o -> Bn (step s o).
 Proof.
   intros W B Ho. destruct (is_plain o) eqn:P; [apply (Bn_geq _ s); [apply geq_step; exact P|exact B]|].
   destruct o; try discriminate P; cbn [Screen.step]; cbn [op_small] in Ho.
-  - destruct (reset_geo s (wf_cols s W) (wf_lines s W)) as [e1 [e2 e3]]. destruct B as [b1 [b2 _]]. unfold Bn. rewrite e1, e2, e3. repeat split; assumption.
+  - destruct (reset_geo s (wf_cols s W) (wf_lines s W)) as [e1 [e2 e3]]. unfold Bn in *. rewrite e2. exact B.
   - apply Bn_set_mode; assumption.
   - apply Bn_reset_mode; assumption.
-  - destruct Ho as [Hl Hc]. destruct (resize_geo s l c) as [r1 [r2 r3]]. destruct B as [b1 [b2 b3]]. unfold Bn. rewrite r1, r2, r3.
-    repeat split; [destruct c; cbn in Hc; lia|destruct l; cbn in Hl; lia|exact b3].
+  - destruct Ho as [Hl Hc]. destruct (resize_geo s l c) as [r1 [r2 r3]]. unfold Bn in *. rewrite r2. destruct l; cbn in Hl; lia.
 Qed.
 
 (* ---- histories of API calls ---- *)
@@ -477,13 +456,13 @@ Proof.
   inversion F as [|? ? Ho F']; subst. cbn [all_ok fold_left]. destruct I0 as [W SC B].
   rewrite (step_safe s o W SC B Ho). cbn [andb]. apply IH; [apply SInv_step; [constructor; assumption|exact Ho]|exact F'].
 Qed.
-Lemma SInv_init c l : 1 <= c <= BND -> 1 <= l <= BND -> SInv (init c l).
+Lemma SInv_init c l : 1 <= c -> 1 <= l <= BND -> SInv (init c l).
 Proof.
   intros Hc Hl. unfold init.
   set (s0 := mkScreen [] c l [] None NMap.empty default_modes [] [] G0 Lat1 Vt100 [] (mkCursor 0 0 cell_default false) None).
   assert (E1 : 1 <= columns s0) by (cbn; lia). assert (E2 : 1 <= lines s0) by (cbn; lia).
   destruct (reset_geo s0 E1 E2) as [e1 [e2 e3]].
-  constructor; [apply WF_reset; assumption|unfold SCm; rewrite e3; exact I|unfold Bn; rewrite e1, e2, e3; cbn; repeat split; lia].
+  constructor; [apply WF_reset; assumption|unfold SCm; rewrite e3; exact I|unfold Bn; rewrite e2; cbn; lia].
 Qed.
 Lemma init_ok_true c l : 1 <= c -> 1 <= l -> init_ok c l = true.
 Proof. intros Hc Hl. unfold init_ok. apply reset_ok_geo; cbn; assumption. Qed.
@@ -568,9 +547,9 @@ Proof.
     split; [constructor; [exact W'|exact SC|exact B]|exact P].
 Qed.
 (* every history of byte chunks (either parser mode), character chunks, charset-mode switches, API calls with arguments
-   absent or <= 9999 (resize: 1..BND) and dirty-clears, from Screen::new(cols, lines) with 1 <= cols, lines <= BND:
+   absent or <= 9999 (resize: lines 1..BND, columns >= 1) and dirty-clears, from Screen::new(cols, lines) with 1 <= cols and 1 <= lines <= BND:
    Screen::new itself and every operation the pipeline performs are free of failing checked arithmetic *)
-Theorem world_safe cols lns os : 1 <= cols <= BND -> 1 <= lns <= BND -> Forall wop_small os ->
+Theorem world_safe cols lns os : 1 <= cols -> 1 <= lns <= BND -> Forall wop_small os ->
   init_ok cols lns = true /\ wrun_ok wid is_comb nfc (winit cols lns) os = true.
 Proof.
   intros Hc Hl F. split; [apply init_ok_true; lia|].
@@ -579,7 +558,7 @@ Proof.
   induction os as [|o os IH]; intros w I0; [reflexivity|].
   inversion F as [|? ? Ho Fo]; subst. cbn [wrun_ok]. destruct (wstep_safe w o I0 Ho) as [A I1]. rewrite A. cbn [andb]. apply IH; assumption.
 Qed.
-Theorem api_safe c l os : 1 <= c <= BND -> 1 <= l <= BND -> Forall op_small os ->
+Theorem api_safe c l os : 1 <= c -> 1 <= l <= BND -> Forall op_small os ->
   init_ok c l = true /\ all_ok wid is_comb nfc (init c l) os = true.
 Proof.
   intros Hc Hl F. split; [apply init_ok_true; lia|]. apply (all_safe os (init c l)); [apply SInv_init; assumption|exact F].
